@@ -140,7 +140,11 @@ fn session(sc: Value, log: Arc<Mutex<Vec<Value>>>) {
 					ev(json!({"a": "panic", "who": "on_start_processing", "msg": msg}));
 					return;
 				}
-				let (pos, px) = scaled(handle.position(), sr as f64);
+				let (pos, mut px) = scaled(handle.position(), sr as f64);
+				// seconds -> frames is exact only for dyadic sample rates; allow the rounding of one division
+				if px == 1 && (handle.position() * sr as f64 - pos as f64).abs() < 1e-6 {
+					px = 0;
+				}
 				ev(json!({"a": "begin", "pos": pos, "px": px, "st": state_name(handle.state())}));
 			}
 			"Proc" => {
